@@ -233,6 +233,16 @@ def build():
         ctx.check("active-handles == allocated-virtual-qubits after the flush", sorted(_sdk_ids(conn)) == sorted(_controller_ids(ex)))
     R.add("lemma[epr context: every pair measured inside]", kind="exhaustive", samples=4)(epr_context)
 
+    def epr_sequential(ctx):
+        hw = ctx.choice("hw", ["generic", "nv"])
+        role = ctx.choice("role", ["create", "recv"])
+        conn, ex, sock, state = _pipeline(ctx, hw, 3, False)
+        from specs import sdk_progs
+        out = ctx.attempt(sdk_progs.epr_sequential_measure, conn, sock, role)
+        ctx.check("no-allocation-fault-on-the-controller", out[0] == "ret" and not state["faults"])
+        ctx.check("active-handles == allocated-virtual-qubits after the flush", sorted(_sdk_ids(conn)) == sorted(_controller_ids(ex)))
+    R.add("lemma[epr sequential form: every pair measured in the post routine]", kind="exhaustive", samples=8)(epr_sequential)
+
     def canary(ctx):
         conn, ex, sock, state = _pipeline(ctx, "generic", 2, False)
         handles = []
